@@ -12,6 +12,7 @@
 //        tapkee::embed with the eigen callbacks (linear kernel, euclidean distance, features)
 //        -> R <id> OK E <rows> <cols> ... | R <id> EXC <name> | R <id> BADCASE <why>
 //   NBR <id> nm=<brute|vptree|covertree> k=<int> cc=<0|1> kd=<0|1: kernel-induced distance> N=<int> D=<int>
+//        [seed=<int>: srand before the call (VP-tree pivots)]
 //   X <N*D doubles>
 //        tapkee_internal::find_neighbors(method, begin, end, PlainDistance / KernelDistance, k, cc)
 //        -> R <id> OK NB <N> <len_0> <entries..> <len_1> ... | R <id> EXC <name>
@@ -387,6 +388,11 @@ static void run_nbr(long id, std::map<std::string, std::string>& kv, const std::
         idx[i] = i;
     eigen_kernel_callback kcb(X);
     eigen_distance_callback dcb(X);
+    if (kv.count("seed"))
+    {
+        // the VP-tree draws its pivots from std::rand: a seed fixes them (tied-data stream)
+        srand((unsigned)atol(kv["seed"].c_str()));
+    }
     alarm(kv.count("wd") ? atoi(kv["wd"].c_str()) : 20);
     try
     {
